@@ -295,7 +295,12 @@ class Held:
             if cur is None:
                 if len(ids) >= 2:
                     b = [ids[-1], ids[0]]
-                    fv = view(b)
+                    s0, fv = attempt(lambda: view(b))
+                    if s0 != "ok":
+                        # a view held across mutations must accept the IDs that exist now
+                        ob.fail(f"{type(view).__name__}.__call__", "held-view-rejects-current-ids",
+                                f"held view called with current ids {b}: {s0} {fv}", "held_filtered")
+                        continue
                     self.filtered[k] = (list(fv), fv, getattr(fv, stat))
                 continue
             fids, fv, st = cur
@@ -837,7 +842,15 @@ def run_history(fam, ops, P, rng=None, steps=None, fixed_sp=None, want_requests=
         else:
             sp = fixed_sp if fixed_sp is not None else (steps[i] if steps is not None else gen_step(rng, T))
             rec["sp"], rec["T"] = sp, T
-            rec["obs"] = observe(held, T, sp, None if rebuilt else prev_order, op)
+            try:
+                rec["obs"] = observe(held, T, sp, None if rebuilt else prev_order, op)
+            except Exception as e:  # noqa
+                # reading the held views / stats crashed in a way no clause anticipated (never happens on a tree where the
+                # views are live): the observation itself is the failure
+                ob = Obs()
+                ob.fail("held views and statistics", "observation-crashed:" + type(e).__name__,
+                        f"reading the objects held since the empty network after {op.get('op')} raised {type(e).__name__}: {e}", "held")
+                rec["obs"] = ob
             prev_order = {"nodes": list(T.nodes), "edges": list(T.edges)}
         recs.append(rec)
     return recs
@@ -980,8 +993,8 @@ def run_family(ctx, fam, n_hist, model_ok, shrunk, hist_len=(1, 22), weights=Non
             last = next((r for r in reversed(recs) if r["obs"] is not None), None)
             if last is not None:
                 ctx.sample({"class": fam.name, "ops": [fam.M.to_request(o) for o in ops[:5]], "params": P,
-                            "nodes": last["obs"].o.get("nodes"), "degree": (last["obs"].o["nstats"]["degree"] or {}).get("asdict")
-                            if isinstance(last["obs"].o["nstats"].get("degree"), dict) else None}, cap=3)
+                            "nodes": last["obs"].o.get("nodes"), "degree": ((last["obs"].o.get("nstats") or {}).get("degree") or {}).get("asdict")
+                            if isinstance((last["obs"].o.get("nstats") or {}).get("degree"), dict) else None}, cap=3)
     ctx.stats[f"{fam.name}:histories"] = len(histories)
     t1 = time.time()
     dis = compare_model(ctx, fam, histories, all_recs) if model_ok else []
@@ -1041,7 +1054,9 @@ def run(ctx):
     results = {}
     for name, n in plan:
         fam = FAMILIES[name]
-        results[name] = run_family(ctx, fam, n, ok and model_available(fam), shrunk, extra=extra)
+        # `clear()` / `clear_edges()` in the middle of a history are what held views are most exposed to
+        boost = {"clear": 4, "clear_edges": 4} if name != "DiHypergraph" else {"clear": 4}
+        results[name] = run_family(ctx, fam, n, ok and model_available(fam), shrunk, extra=extra, weights=boost)
     # exhaustive small scope of the correspondence (validation of the model, not the proof)
     nn, me = ctx.n(3, 4), ctx.n(2, 3)
     small = list(small_scope(nn, me))
